@@ -359,13 +359,13 @@ def run_check(pid, tier, seed, scale=1.0):
     findings = [f for f in load_findings() if f.get("property") == pid]
     scratch = make_scratch()
     try:
-        return _run_check(pid, p, tier, seed, jobs, findings, scratch, t0)
+        return _run_check(pid, p, tier, seed, jobs, findings, scratch, t0, scale)
     finally:
         shutil.rmtree(scratch, ignore_errors=True)
         build.prune_cache()
 
 
-def _run_check(pid, p, tier, seed, jobs, findings, scratch, t0):
+def _run_check(pid, p, tier, seed, jobs, findings, scratch, t0, scale=1.0):
     # ---- build
     targets = set()
     for j in jobs:
@@ -577,6 +577,8 @@ def _run_check(pid, p, tier, seed, jobs, findings, scratch, t0):
 
     wall = time.time() - t0
     min_nt = p.get("min_nontrivial", {}).get(tier, 2)
+    if scale < 1:
+        min_nt = max(2, int(min_nt * scale))  # scaled-down runs (VERIF_SCALE) scale the non-vacuity threshold with them
     status = 0
     for hit, v in known_hits:
         pass
